@@ -93,7 +93,7 @@ class Outcome:
         self.samples = []
 
 
-def run_cases(sc, wire, cases, name='b', runtime=True, check=False, show=False, build=True, switches=(True, True, True),
+def run_cases(sc, wire, cases, name='b', runtime=True, check=False, show=False, build=True, notes=False, switches=(True, True, True),
               allow_typeerr=(), gate=True, gen_args=(), tool_timeout=300):
     """Full pipeline on a list of cases. Returns Outcome (violations NOT yet confirmed)."""
     out = Outcome()
@@ -124,6 +124,20 @@ def run_cases(sc, wire, cases, name='b', runtime=True, check=False, show=False, 
         ts = core.ToolRun(b, wire, 'show', timeout=tool_timeout)
         sobs = ts.run_all()
         allobs += [sobs[d] for d in dirs]
+    if notes:
+        # value fidelity: run the accepted packages, collect the "note" events (home evaluation, injector results)
+        good = [d for d in wrote if obs[d]['built'] == 'ok']
+        if good:
+            trace = core.drive(b, good, name=name + 'val')
+            per = {}
+            for line in open(trace):
+                e_ = json.loads(line)
+                if e_['e'] == 'note':
+                    per.setdefault(e_['ci'], {'home': [], 'inj': []})[e_['p']].append(e_['v'])
+            for ci, v in sorted(per.items()):
+                c = b.cases[ci - 1]
+                allobs.append({'ci': ci, 'key': c.case['key'], 'cmd': 'value', 'home': v['home'], 'inj': v['inj'],
+                               'failed': False, 'wrote': False, 'panic': False, 'hang': False, 'diags': [], 'built': 'ok'})
     badidx, n = judge_static(sc, cases_path, allobs, name=name + '-judge')
     out.n_obs = n
     for i in sorted(badidx):
